@@ -1,7 +1,7 @@
 /* UNIT
 {
  "id": "PP.ctxnext.bnd",
- "file": "pp.c", "function": "ctxnext",
+ "file": "pp.c", "function": "ctxnext", "also_functions": ["macrodone", "framenext", "ctxpush", "macroparam"],
  "properties": {"C12": "contract", "C19": "safety"},
  "mode": "harness",
  "unwind": 5, "unwind_failure": "violation",
